@@ -29,13 +29,16 @@ func genC09(g *Gen, tier string) *Program {
 	kinds := []string{"counter", "gauge", "timer", "hist"}
 	// one shared script of first uses; every task runs (a prefix/permutation of) it
 	type step struct {
-		scope int // 0 root, 1 sub a, 2 tagged
+		scope int // 0 root, 1 sub a, 2 tagged k=v, 3 sub b, 4 tagged k=w
 		kind  string
 		name  string
 	}
 	var script []step
 	for i := g.Range(2, 5); i > 0; i-- {
-		script = append(script, step{g.Intn(3), kinds[g.Intn(4)], pick(g, "x", "y")})
+		// children come in pairs whose registry keys have the same length ("a"/"b",
+		// k=v/k=w): a key buffer that is recycled too early then holds a complete,
+		// valid key of the sibling
+		script = append(script, step{g.Intn(5), kinds[g.Intn(4)], pick(g, "x", "y")})
 	}
 	// histograms use bucket sets that collide in the root's shared bucket cache;
 	// the set is tied to the name, so one identity always has one set
@@ -59,9 +62,14 @@ func genC09(g *Gen, tier string) *Program {
 			st := script[si]
 			sv, ok := have[st.scope]
 			if !ok {
-				if st.scope == 1 {
+				switch st.scope {
+				case 1:
 					ops = append(ops, Op{K: "sub", S: 0, D: nextS, Name: "a"})
-				} else {
+				case 3:
+					ops = append(ops, Op{K: "sub", S: 0, D: nextS, Name: "b"})
+				case 4:
+					ops = append(ops, Op{K: "tag", S: 0, D: nextS, Tags: map[string]string{"k": "w"}})
+				default:
 					ops = append(ops, Op{K: "tag", S: 0, D: nextS, Tags: map[string]string{"k": "v"}})
 				}
 				sv = nextS
